@@ -29,17 +29,251 @@ func marshalCase(r *Run, t pduType, valueTerm string, err error, panicked bool, 
 		fmt.Sprintf("beq_obytes (marshal %s %s) %s", layoutRef(t.ID), valueTerm, want))
 }
 
+// ---------------------------------------------------------------- destinations other than a fresh recording writer
+// heldBuffer is a writer that is not a *bytes.Buffer dynamically but offers every fast path of one
+// (WriteString, ReadFrom, WriteByte ...) through the embedded buffer.
+type heldBuffer struct{ *bytes.Buffer }
+
+// roomWriter accepts [room] more octets, then reports an error (a peer that went away, a full pipe).
+type roomWriter struct {
+	got  []byte
+	room int
+}
+
+func (w *roomWriter) Write(p []byte) (int, error) {
+	m := len(p)
+	if m > w.room {
+		m = w.room
+	}
+	w.got = append(w.got, p[:m]...)
+	w.room -= m
+	if m < len(p) {
+		return m, fmt.Errorf("destination failed after %d octets", m)
+	}
+	return m, nil
+}
+
+func replayValueDest(p interface{}, kind string, held []byte, room int) map[string]interface{} {
+	m := replayValue(p)
+	m["dest"] = kind
+	m["held"] = hex.EncodeToString(held)
+	m["room"] = room
+	return m
+}
+
+// marshalInto runs Marshal on a clone of [before] with the destination described by (kind, held, room)
+// and returns what the caller and the destination saw.
+func marshalInto(before interface{}, kind string, held []byte, room int) (n int64, err error, got []byte, panicked bool, pmsg string) {
+	p := clonePDU(before)
+	switch kind {
+	case "buffer":
+		b := bytes.NewBuffer(append([]byte(nil), held...))
+		panicked, pmsg = guard(func() { n, err = pdu.Marshal(b, p) })
+		got = b.Bytes()
+	case "wrapped":
+		b := heldBuffer{bytes.NewBuffer(append([]byte(nil), held...))}
+		panicked, pmsg = guard(func() { n, err = pdu.Marshal(b, p) })
+		got = b.Bytes()
+	default: // "room"
+		w := &roomWriter{got: append([]byte(nil), held...), room: room}
+		panicked, pmsg = guard(func() { n, err = pdu.Marshal(w, p) })
+		got = w.got
+	}
+	return
+}
+
+// checkDest: the C12 clauses on a destination that already holds octets / gives up after [room] octets.
+// [fresh]: what a fresh recording writer received for the same value (nil when Marshal refused it).
+func checkDest(r *Run, t pduType, before interface{}, term string, fresh []byte, freshErr bool, kind string, held []byte, room int, emit bool) {
+	r.SetReplay(replayValueDest(before, kind, held, room))
+	n, err, got, panicked, pmsg := marshalInto(before, kind, held, room)
+	in := fmt.Sprintf("marshal %s %.2000s into %s holding %d octets (%s) room=%d", t.Name, term, kind, len(held), shortHex(held), room)
+	r.Count(fmt.Sprintf("%s|%s|%x|%d|%s", t.Name, kind, held, room, term), true, "dest="+kind)
+	res := "MPanic"
+	switch {
+	case panicked:
+		r.Fail("marshal-panic/dest="+kind+"/"+t.Name, "Marshal panicked", in, "panic: "+pmsg, "returns normally (value or error)")
+	case len(got) < len(held) || !bytes.Equal(got[:len(held)], held):
+		r.Fail("marshal-clobbered-destination/dest="+kind+"/"+t.Name, "octets the destination already held were changed", in, shortHex(got), "prefix "+shortHex(held))
+		return
+	case err != nil && freshErr:
+		res = "(MErr EOther)"
+		if len(got) != len(held) {
+			r.Fail("marshal-error-but-wrote/dest="+kind+"/"+t.Name, "Marshal returned an encoding error after writing to the destination", in,
+				fmt.Sprintf("err=%v destination grew by %d octets: %s", err, len(got)-len(held), shortHex(got[len(held):])), "nothing written on error")
+		}
+	case err != nil:
+		// the value is encodable: the error can only be the destination's
+		res = "(MWriteErr 0)"
+		if kind != "room" || room >= len(fresh) {
+			r.Fail("marshal-spurious-error/dest="+kind+"/"+t.Name, "Marshal failed on a destination that accepts the whole frame", in, fmt.Sprint(err), "success")
+		} else if !bytes.Equal(got[len(held):], fresh[:room]) {
+			r.Fail("marshal-failing-writer-octets/"+t.Name, "a destination that gave up received something other than the first octets of the frame", in,
+				shortHex(got[len(held):]), shortHex(fresh[:room]))
+		}
+	default:
+		frame := got[len(held):]
+		res = fmt.Sprintf("(MOk %d)", n)
+		if freshErr || (kind == "room" && room < len(fresh)) {
+			r.Fail("marshal-success-unexpected/dest="+kind+"/"+t.Name, "Marshal reported success where it must fail", in, fmt.Sprintf("n=%d wrote %s", n, shortHex(frame)), "an error")
+		}
+		if len(frame) < 4 || int64(binary.BigEndian.Uint32(frame[:4])) != int64(len(frame)) || n != int64(len(frame)) {
+			r.Fail("marshal-length/dest="+kind+"/"+t.Name, "octets written, command_length and returned count disagree on a destination that already held octets", in,
+				fmt.Sprintf("held=%d written=%d returned=%d first octets=%s", len(held), len(frame), n, hex.EncodeToString(frame[:min(len(frame), 16)])),
+				"first four octets = octets written = returned count")
+		}
+	}
+	if emit && !panicked && len(term) < 12000 {
+		roomTerm := "None"
+		if kind == "room" {
+			roomTerm = fmt.Sprintf("(Some %d)", room)
+		}
+		r.Case(fmt.Sprintf("marshal_io dest=%s held=%d room=%d %s %.200s", kind, len(held), room, t.Name, term),
+			fmt.Sprintf("io_agrees (marshal_io %s %s (dest %s %s)) %s %s", layoutRef(t.ID), term, coqHex(held), roomTerm, res, coqHex(got)))
+	}
+}
+
+// udhSweep: user-data headers whose elements, in identifier order, reach every total from 250 to 258 octets
+// at an element boundary, with and without an empty / one-octet element before and after; and the identifiers
+// at the ends of the octet range.  Deterministic (no randomness): every run walks all of them.
+func udhSweep() []pdu.UserDataHeader {
+	var out []pdu.UserDataHeader
+	fill := func(n int, v byte) []byte { return bytes.Repeat([]byte{v}, n) }
+	for total := 250; total <= 258; total++ {
+		for split := 0; split < 2; split++ {
+			for trailing := 0; trailing < 3; trailing++ {
+				for leading := 0; leading < 2; leading++ {
+					u := pdu.UserDataHeader{}
+					rem := total - 1
+					if leading == 1 {
+						u[0] = nil
+						rem -= 2
+					}
+					if split == 1 {
+						u[3] = fill(100, 0x33)
+						rem -= 102
+					}
+					if rem-2 > 255 || rem < 2 {
+						continue
+					}
+					u[5] = fill(rem-2, 0x55)
+					switch trailing {
+					case 1:
+						u[9] = []byte{}
+					case 2:
+						u[0xFF] = []byte{0x99}
+					}
+					out = append(out, u)
+				}
+			}
+		}
+	}
+	for _, id := range []byte{0x00, 0x01, 0x7F, 0x80, 0xFE, 0xFF} {
+		for _, l := range []int{0, 1, 3, 255, 256} {
+			out = append(out, pdu.UserDataHeader{id: fill(l, id)})
+		}
+		out = append(out, pdu.UserDataHeader{id: {1}, 0xFF: {}}, pdu.UserDataHeader{id: {}, 0x00: {2, 3}})
+	}
+	return out
+}
+
 func corrC12(r *Run) {
 	r.Import("Model.PduRun")
+	r.Import("Model.PduHazards")
 	r.Rule = "pointer-to-PDU values of all 33 registered types with unconstrained field contents (sequence over the whole int32 range, " +
 		"any command_status, container sizes on both sides of 255/256, TLV and UDH value lengths on both sides of 65534/65535 and 255/256, " +
-		"messages on both sides of 140); non-trivial = distinct (type, value) with at least one field beyond the header; distinct by canonical value text"
+		"UDH totals 250..258 at element boundaries with empty neighbours, element identifiers 0x00/0xFE/0xFF, messages on both sides of 140) x destinations " +
+		"(fresh recording writer; *bytes.Buffer and a wrapper already holding 1..100 octets; a writer that gives up after 0..frame+5 octets; the same pointer marshalled twice); " +
+		"non-trivial = distinct (type, value) with at least one field beyond the header; distinct by canonical value text"
 	ts := pduTypes()
-	n := r.N(24, 600)         // per type
-	bigBudget := r.N(25, 600) // values whose term is tens of KiB are slow to parse inside coqc: a fixed number per run
+	n := r.N(11, 600)         // per type
+	bigBudget := r.N(12, 600) // values whose term is tens of KiB are slow to parse inside coqc: a fixed number per run
 	vol := &pduVolume{}
 	defer vol.diff(r)
-	volPerType := r.N(150, 3000) // further values per type, for the direct tests and the extracted model only
+	volPerType := r.N(110, 3000) // further values per type, for the direct tests and the extracted model only
+	one := func(t pduType, p interface{}, i int, kernel bool, tag string) {
+		before := clonePDU(p)
+		term := coqValue(before)
+		valueLine := canonValueLine(before)
+		r.SetReplay(replayValue(before))
+		nret, err, w, panicked, pmsg := marshalRec(p)
+		cls := "ok"
+		if panicked {
+			cls = "panic"
+		} else if err != nil {
+			cls = "error"
+		}
+		r.Count(t.Name+term, reflect.ValueOf(p).Elem().NumField() > 1, t.Name+"/"+cls+tag)
+		if i < 1 && t.ID == 4 && tag == "" {
+			r.Sample(map[string]interface{}{"type": t.Name, "value": term, "outcome": cls})
+		}
+		in := fmt.Sprintf("marshal %s %s", t.Name, term)
+		var frame []byte
+		for _, c := range w.calls {
+			frame = append(frame, c...)
+		}
+		switch {
+		case panicked:
+			r.Fail("marshal-panic/"+t.Name, "Marshal panicked", in, "panic: "+pmsg, "returns normally (value or error)")
+		case err != nil:
+			if len(frame) != 0 {
+				r.Fail("marshal-error-but-wrote/"+t.Name, "Marshal returned an error after writing to the destination", in,
+					fmt.Sprintf("err=%v writes=%d first=%s", err, len(w.calls), hex.EncodeToString(w.calls[0])), "nothing written on error")
+			}
+		default:
+			// the property speaks of the octets the destination received, not of how many Write calls carried them
+			if len(frame) < 4 || int64(binary.BigEndian.Uint32(frame[:4])) != int64(len(frame)) || nret != int64(len(frame)) {
+				r.Fail("marshal-length/"+t.Name, "frame length, command_length and returned count disagree", in,
+					fmt.Sprintf("len=%d returned=%d frame=%s…", len(frame), nret, hex.EncodeToString(frame[:min(len(frame), 16)])),
+					"first four octets = octets written = returned count")
+			}
+		}
+		vol.marshal(t.ID, valueLine, term, err, panicked, w)
+		small := len(term) < 12000
+		if kernel && (small || bigBudget > 0) {
+			if !small {
+				bigBudget--
+			}
+			marshalCase(r, t, term, err, panicked, w)
+		}
+		if panicked {
+			return
+		}
+		// the same pointer marshalled a second time: same octets, same outcome, no panic; and what the first call left in it
+		if i%2 == 0 {
+			afterTerm := coqValue(p)
+			r.SetReplay(replayValueDest(before, "twice", nil, 0))
+			n2, err2, w2, panicked2, pmsg2 := marshalRec(p)
+			var frame2 []byte
+			for _, c := range w2.calls {
+				frame2 = append(frame2, c...)
+			}
+			switch {
+			case panicked2:
+				r.Fail("marshal-panic/second-call/"+t.Name, "a second Marshal of the same pointer panicked", in, "panic: "+pmsg2, "returns normally")
+			case (err == nil) != (err2 == nil) || !bytes.Equal(frame, frame2) || (err == nil && n2 != nret):
+				r.Fail("marshal-second-call-differs/"+t.Name, "marshalling the same pointer twice gave different results", in,
+					fmt.Sprintf("second: n=%d err=%v %s", n2, err2, shortHex(frame2)), fmt.Sprintf("first: n=%d err=%v %s", nret, err, shortHex(frame)))
+			}
+			if kernel && small && err == nil && i%4 == 0 {
+				r.Case(fmt.Sprintf("argument after Marshal %s %.200s", t.Name, term),
+					fmt.Sprintf("beq_fvals (arg_after %s %s) %s", layoutRef(t.ID), term, afterTerm))
+			}
+		}
+		// other destinations
+		if i%3 == 0 || tag != "" {
+			held := r.Rng.Bytes(r.Rng.Pick([]int{1, 2, 3, 4, 5, 16, 17, 100}))
+			kind := []string{"buffer", "buffer", "wrapped"}[r.Rng.Intn(3)]
+			checkDest(r, t, before, term, frame, err != nil, kind, held, 0, kernel && i%6 == 0)
+		}
+		if i%5 == 1 {
+			room := r.Rng.Pick([]int{0, 1, 3, 4, 15, 16, 17, len(frame) - 1, len(frame), len(frame) + 5})
+			if room < 0 {
+				room = 0
+			}
+			checkDest(r, t, before, term, frame, err != nil, "room", r.Rng.Bytes(r.Rng.Intn(3)), room, kernel && i%10 == 1)
+		}
+	}
 	for _, t := range ts {
 		for i := 0; i < n+volPerType; i++ {
 			mode := modeWild
@@ -56,73 +290,40 @@ func corrC12(r *Run) {
 			if i == 1 {
 				pdu.WriteSequence(p, -1)
 			}
-			before := clonePDU(p)
-			term := coqValue(before)
-			valueLine := canonValueLine(before)
-			r.SetReplay(replayValue(before))
-			nret, err, w, panicked, pmsg := marshalRec(p)
-			cls := "ok"
-			if panicked {
-				cls = "panic"
-			} else if err != nil {
-				cls = "error"
-			}
-			r.Count(t.Name+term, reflect.ValueOf(p).Elem().NumField() > 1, t.Name+"/"+cls)
-			if i < 1 && t.ID == 4 {
-				r.Sample(map[string]interface{}{"type": t.Name, "value": term, "outcome": cls})
-			}
-			in := fmt.Sprintf("marshal %s %s", t.Name, term)
-			switch {
-			case panicked:
-				r.Fail("marshal-panic/"+t.Name, "Marshal panicked", in, "panic: "+pmsg, "returns normally (value or error)")
-			case err != nil:
-				if len(w.calls) != 0 {
-					r.Fail("marshal-error-but-wrote/"+t.Name, "Marshal returned an error after writing to the destination", in,
-						fmt.Sprintf("err=%v writes=%d first=%s", err, len(w.calls), hex.EncodeToString(w.calls[0])), "nothing written on error")
-				}
-			default:
-				var frame []byte
-				for _, c := range w.calls {
-					frame = append(frame, c...)
-				}
-				if len(w.calls) != 1 {
-					r.Fail("marshal-write-calls/"+t.Name, "Marshal did not hand the frame to the destination in exactly one Write", in,
-						fmt.Sprintf("%d Write calls", len(w.calls)), "exactly one Write with the whole frame")
-				}
-				if len(frame) < 4 || int64(binary.BigEndian.Uint32(frame[:4])) != int64(len(frame)) || nret != int64(len(frame)) {
-					r.Fail("marshal-length/"+t.Name, "frame length, command_length and returned count disagree", in,
-						fmt.Sprintf("len=%d returned=%d frame=%s…", len(frame), nret, hex.EncodeToString(frame[:min(len(frame), 16)])),
-						"first four octets = octets written = returned count")
-				}
-			}
-			vol.marshal(t.ID, valueLine, term, err, panicked, w)
-			if i < n && (len(term) < 12000 || bigBudget > 0) {
-				if len(term) >= 12000 {
-					bigBudget--
-				}
-				marshalCase(r, t, term, err, panicked, w)
-			}
+			one(t, p, i, i < n, "")
 		}
 	}
-	// failing destination: an error from Write is reported, still no panic
-	for _, t := range ts[:4] {
-		p := genPDU(r.Rng, t, modeDomain)
-		var buf bytes.Buffer
-		panicked, pmsg := guard(func() { _, _ = pdu.Marshal(&limitWriter{&buf, 3}, p) })
-		r.Count("failing-writer/"+t.Name, true, "failing-writer")
-		if panicked {
-			r.Fail("marshal-panic-failing-writer/"+t.Name, "Marshal panicked on a failing destination", t.Name, pmsg, "returns the error")
+	// deterministic sweep of user-data headers on every type that carries a short message
+	sweep := udhSweep()
+	nt := 0
+	for _, t := range ts {
+		mi := -1
+		for j := 0; j < t.T.NumField(); j++ {
+			if t.T.Field(j).Type == reflect.TypeOf(pdu.ShortMessage{}) {
+				mi = j
+			}
 		}
+		if mi < 0 {
+			continue
+		}
+		for k, u := range sweep {
+			p := reflect.New(t.T)
+			pdu.WriteSequence(p.Interface(), int32(1+k))
+			for j := 0; j < t.T.NumField(); j++ {
+				if e, ok := p.Elem().Field(j).Interface().(pdu.ESMClass); ok {
+					e.UDHIndicator = true
+					p.Elem().Field(j).Set(reflect.ValueOf(e))
+				}
+			}
+			m := pdu.ShortMessage{UDHeader: u}
+			if k%3 == 1 {
+				m.Message = []byte{0x41}
+			}
+			p.Elem().Field(mi).Set(reflect.ValueOf(m))
+			one(t, p.Interface(), 1+2*k, (k+nt)%6 == 0, "/udh-sweep") // odd index: no extra destinations by index; tag forces a held buffer
+		}
+		nt++
 	}
-}
-
-type limitWriter struct {
-	w *bytes.Buffer
-	n int
-}
-
-func (l *limitWriter) Write(p []byte) (int, error) {
-	return 0, fmt.Errorf("destination failed")
 }
 
 func min(a, b int) int {
